@@ -38,7 +38,9 @@ TracePubLeave ==
 
 TraceJoin ==
   /\ IsEvent("Join")
-  /\ LET c == Trace[l].c IN IF ~failed /\ c \in Subs /\ ~sub[c].in THEN Join(c) /\ failed' = FALSE ELSE Reject
+  /\ LET c == Trace[l].c
+     IN IF ~failed /\ c \in Subs /\ JoinOk(c) /\ ("ok" \in DOMAIN Trace[l] => Trace[l].ok)   \* (push target: the attempt existed and attached)
+        THEN Join(c) /\ failed' = FALSE ELSE Reject
 
 TraceLeave ==
   /\ IsEvent("Leave")
